@@ -31,7 +31,7 @@ P2P_CONST = """  W = %(W)d
 WP_CONST = """  W = %(W)d
   N = %(N)d
   MaxWin = 10000
-  Workers = {"w1", "w2", "w3"}
+  Workers = %(Workers)s
   Initial <- %(Initial)s
   Leavers = %(Leavers)s
   F = %(F)d
@@ -87,10 +87,14 @@ class Background:
         return self.res
 
 
-def judge(ctx, kind, trace, nlines, W, tag):
+W3 = '{"w1", "w2", "w3"}'
+W2 = '{"w1", "w2"}'
+
+
+def judge(ctx, kind, trace, nlines, W, tag, wset=W3):
     """Monitor (verdict) + conformance (drift) on one recorded trace."""
     mon_mod, tr_mod = ("Mon_P2P", "Trace_P2P") if kind == "p2p" else ("Mon_WP", "Trace_WP")
-    workers = '  Workers = {"w1", "w2", "w3"}\n'
+    workers = "  Workers = %s\n" % wset
     mon_cfg = "SPECIFICATION Spec\nCONSTANTS\n" + ("  W = %d\n" % W if kind == "p2p" else workers) + "CHECK_DEADLOCK FALSE\n"
     tr_cfg = "SPECIFICATION TSpec\nCONSTANTS\n  W = %d\n  MaxWin = 10000\n" % W + (workers if kind == "wp" else "") + "CHECK_DEADLOCK FALSE\n"
     mname, tname = "%s_%s.cfg" % (mon_mod, tag), "%s_%s.cfg" % (tr_mod, tag)
@@ -105,12 +109,15 @@ def judge(ctx, kind, trace, nlines, W, tag):
     conf = bg.join()
     if mon.depth != nlines + 1:
         raise vlib.Infra("monitor did not consume the whole trace %s (%d of %d lines)" % (tag, mon.depth - 1, nlines))
-    mism = [(int(a), p, what, x, y) for a, p, what, x, y in
-            re.findall(r'<<"MISMATCH", (\d+), "(C\d+)", "([\w-]+)", ([^,>]+), ([^,>]+)>>', mon.out)]
+    tup = vlib.tuples(mon.out, "MISMATCH")
+    if len(tup) != mon.out.count('"MISMATCH"') or any(len(t) != 5 or not isinstance(t[0], int) for t in tup):
+        raise vlib.Infra("cannot parse the monitor's MISMATCH output of trace %s (%d tuples, %d tags)"
+                         % (tag, len(tup), mon.out.count('"MISMATCH"')))
+    mism = [(t[0], t[1], t[2], str(t[3]), str(t[4])) for t in tup]
     drift = None
     if conf.depth != nlines + 1:
-        m = re.search(r'<< "DRIFT",\s*(\d+),\s*"(\w+)"', conf.out)
-        drift = "%s: trace rejected at line %d of %d%s" % (tag, conf.depth, nlines, (" (handler of %s)" % m.group(2)) if m else "")
+        dt = vlib.tuples(conf.out, "DRIFT")
+        drift = "%s: trace rejected at line %d of %d%s" % (tag, conf.depth, nlines, (" (handler of %s)" % dt[0][1]) if dt and len(dt[0]) > 1 else "")
         if conf.error and "DRIFT" not in conf.out:
             drift += " [TLC: %s]" % conf.error[:200]
     return mism, drift
@@ -162,14 +169,14 @@ def design_wp(ctx, pid):
     quick = ctx.quick
     out = {}
     mc = dict(W=1, N=2, F=1, TP=0, TC=1, TG=0, Initial="Init1", Leavers='{"w1"}') if quick else dict(W=2, N=3, F=1, TP=0, TC=1, TG=0, Initial="Init2", Leavers='{"w1"}')
-    cfg = ("SPECIFICATION Spec\nCONSTANTS\n" + (WP_CONST % mc).replace('{"w1", "w2", "w3"}', '{"w1", "w2"}') + "VIEW View\n"
+    cfg = ("SPECIFICATION Spec\nCONSTANTS\n" + WP_CONST % dict(Workers=W2, **mc) + "VIEW View\n"
            "INVARIANTS JobConservation ConfirmedOnce NoFailure Bindings SubFlows\nPROPERTIES NeverIllegal DeliveryOrder\n")
     r = ctx.tlc_must_hold(SPEC, "MC_WP_run.cfg", module="MC_WorkPull", deadlock_check=False, timeout=2400, workers=4 if quick else 8,
                           files={"MC_WP_run.cfg": write_cfg(ctx, "MC_WP_run.cfg", cfg)}, name="mc-wp", heap="12g")
     out["mc"] = dict(constants=mc, distinct=r.distinct, generated=r.generated, depth=r.depth)
     ctx.log("design WorkPull: %d distinct states, all invariants hold" % r.distinct)
     lv = dict(W=1, N=2, F=1, TP=1000, TC=1000, TG=1000, Initial="Init1", Leavers='{"w1"}') if quick else dict(W=2, N=2, F=1, TP=1000, TC=1000, TG=1000, Initial="Init2", Leavers='{"w1"}')
-    cfg = ("SPECIFICATION LiveSpec\nCONSTANTS\n" + (WP_CONST % lv).replace('{"w1", "w2", "w3"}', '{"w1", "w2"}').replace("QuietTicks = FALSE", "QuietTicks = TRUE") +
+    cfg = ("SPECIFICATION LiveSpec\nCONSTANTS\n" + (WP_CONST % dict(Workers=W2, **lv)).replace("QuietTicks = FALSE", "QuietTicks = TRUE") +
            "VIEW LiveView\nINVARIANTS JobConservation NoFailure\nPROPERTIES EventuallyAllDone\n")
     r = ctx.tlc_must_hold(SPEC, "Live_WP_run.cfg", module="MC_WorkPull", deadlock_check=False, timeout=2400, workers=4,
                           files={"Live_WP_run.cfg": write_cfg(ctx, "Live_WP_run.cfg", cfg)}, name="live-wp", heap="12g")
@@ -185,12 +192,13 @@ def run(ctx, pid):
     try:
         plans = plan(ctx, kind)
         exe = ctx.build("reliable")
-        env = {"VERIF_WORKERS": "w1,w2,w3"}
         results, all_mism, drifts, samples = [], [], [], []
         n_beh = n_free = n_nontrivial = events = 0
         seen = set()
         for p in plans:
             W, tag = p["W"], p["tag"]
+            wset = p.get("workers", W3)
+            env = {"VERIF_WORKERS": ",".join(re.findall(r"w\d", wset))}
             trace = ctx.tmp("trace-%s.ndjson" % tag)
             open(trace, "w").close()
             stats = {"replay": []}
@@ -221,7 +229,7 @@ def run(ctx, pid):
                     out.write(inp.read())
             rows = vlib.read_ndjson(trace)
             events += len(rows)
-            mism, drift = judge(ctx, kind, trace, len(rows), W, tag)
+            mism, drift = judge(ctx, kind, trace, len(rows), W, tag, wset)
             stats["monitor_mismatches"] = len(mism)
             stats["conformance_drift"] = drift
             results.append({"W": W, **stats})
@@ -298,10 +306,10 @@ def plan(ctx, kind):
             plans.append(dict(W=W, tag="w%d" % W, groups=([(3, bfs)] if W == 2 else []) + [(4, b)],
                               free_runs=(15 if quick else 200), free_n=3 + 2 * W))
     else:
-        small = dict(N=2, F=1, TP=0, TC=1, TG=0, Initial="Init2", Leavers='{"w1"}')
-        walk = dict(N=4, F=2, TP=2, TC=6, TG=1, Initial="Init2", Leavers='{"w1", "w2"}')
-        walk1 = dict(N=4, F=2, TP=2, TC=6, TG=1, Initial="Init1", Leavers='{"w1", "w2"}')
-        bfs = gen(ctx, "Gen_WP", WP_CONST, dict(W=1, **small), 7 if quick else 9, tag="bfs-w1", timeout=1500)
+        small = dict(N=2, F=1, TP=0, TC=1, TG=0, Initial="Init1", Leavers='{"w1"}', Workers=W2)
+        walk = dict(N=4, F=2, TP=2, TC=6, TG=1, Initial="Init2", Leavers='{"w1", "w2"}', Workers=W3)
+        walk1 = dict(N=4, F=2, TP=2, TC=6, TG=1, Initial="Init1", Leavers='{"w1", "w2"}', Workers=W3)
+        bfs = gen(ctx, "Gen_WP", WP_CONST, dict(W=1, **small), 5 if quick else 7, tag="bfs-w1", timeout=1500)
         sim = {2: gen(ctx, "Gen_WP", WP_CONST, dict(W=2, **walk), 36, simulate="num=%d" % (40 if quick else 700), tag="sim-w2",
                       timeout=1500, cap=200 if quick else 4000)}
         for W in ([other] if quick else [1, 3]):
@@ -309,12 +317,8 @@ def plan(ctx, kind):
                          tag="sim-w%d" % W, timeout=1500, cap=100 if quick else 2500)
         if len(bfs) < 200 or any(len(v) < 30 for v in sim.values()):
             raise vlib.Infra("behaviour generation produced too little (%d exhaustive, %s random)" % (len(bfs), {k: len(v) for k, v in sim.items()}))
-        ctx.log("behaviours: %d exhaustive (W=1, N=2), random walks %s (N=4)" % (len(bfs), {k: len(v) for k, v in sim.items()}))
+        ctx.log("behaviours: %d exhaustive (W=1, N=2, two workers), random walks %s (N=4, three workers)" % (len(bfs), {k: len(v) for k, v in sim.items()}))
         for W, b in sim.items():
             plans.append(dict(W=W, tag="w%d" % W, groups=[(4, b)], free_runs=(12 if quick else 150), free_n=3 + 2 * W))
-        # the exhaustive histories use W=1, N=2 (the driver's endpoint offers exactly N jobs)
-        if 1 in sim:
-            plans[-1 if quick else 1]["groups"].insert(0, (2, bfs))
-        else:
-            plans.append(dict(W=1, tag="w1", groups=[(2, bfs)], free_runs=0, free_n=0))
+        plans.append(dict(W=1, tag="bfs", groups=[(2, bfs)], free_runs=0, free_n=0, workers=W2))
     return plans
